@@ -20,7 +20,7 @@ META = {
     "rule": ("full product N x scheduler x window x order x backend x olap x mode x record; oracle on every bin; plus the full grid "
              "of constructed results; non-trivial: bins with K>=2 whose reference scatter exceeds 1e3x its tolerance"),
     "exhaustive": True,
-    "bounds": {"quick": "N in {16,33,64}; 4 schedulers; windows hann,kaiser200,custom; orders -1..2; numba+numpy; olap {0,.5,.8}; (Jdes,Kdes) in {(10,4),(30,2),(30,8)}; auto+cross; records id1/id2, seeded; constructed: M2 in {0,1e-9,2.5}, navg in {1,2,7,1000}, S2 in {.3,40}, fs in {1,1000}",
+    "bounds": {"quick": "kernel level: N=9, L in {2,4,6}, every ordered start sequence of length 2..4, low- and high-scatter records, NumPy chunk sizes 1,2,3,default; analyzer level: N in {16,33,64}; 4 schedulers; windows hann,kaiser200,custom; orders -1..2; numba+numpy; olap {0,.5,.8}; (Jdes,Kdes) in {(10,4),(30,2),(30,8)}; auto+cross; records id1/id2, seeded; constructed: M2 in {0,1e-9,2.5}, navg in {1,2,7,1000}, S2 in {.3,40}, fs in {1,1000}",
                "thorough": "adds N in {100,257}"},
     "assumptions": ["statistical clause (agreement with analytic deviations for Gaussian noise) not decided by enumeration, not claimed"],
 }
@@ -28,6 +28,9 @@ META = {
 
 def shards(tier, seed):
     out = [{"part": "constructed"}]
+    for backend in ("numba", "numpy"):
+        for order in (-1, 0, 1, 2):
+            out.append({"part": "kernel", "backend": backend, "order": order, "seed": seed})
     Ns = [16, 33, 64] + ([100, 257] if tier == "thorough" else [])
     for N, sch, backend, win in itertools.product(Ns, ("lpsd", "ltf", "vectorized_ltf", "new_ltf"), ("numba", "numpy"), ("hann", "kaiser200", "custom")):
         out.append({"part": "ana", "N": N, "sched": sch, "backend": backend, "win": win, "seed": seed})
@@ -39,12 +42,14 @@ def run_shard(shard):
     ana.quiet()
     if shard["part"] == "constructed":
         return _constructed()
+    if shard["part"] == "kernel":
+        return _kernel(shard)
     if "case" in shard:
         return _one(shard["case"])
     out = {"evals": 0, "nontrivial": 0, "failures": [], "samples": [], "extra": {"single_segment_bins": 0}}
     seen = set()
     for order, olap, mode, (rx, ry), (J, K) in itertools.product((-1, 0, 1, 2), (0.0, 0.5, 0.8), ("auto", "cross"),
-                                                                 (("id1", "id2"), ("seed0", "seed1")), ((10, 4), (30, 2), (30, 8))):
+                                                                 (("id1", "id2"), ("seed0", "seed1"), ("off", "off2")), ((10, 4), (30, 2), (30, 8))):
         c = {k: shard[k] for k in ("N", "sched", "backend", "win", "seed")}
         c.update(order=order, olap=olap, mode=mode, rx=rx, ry=ry, Jdes=J, Kdes=K)
         r = _one(c)
@@ -64,6 +69,40 @@ def replay(case):
     if case.get("part") == "constructed":
         return _constructed()["failures"]
     return run_shard({"part": "ana", "case": case})["failures"]
+
+
+def _kernel(shard):
+    """Scatter at kernel level: every ordered start sequence of length 2..4 on a 9-sample record, low- and high-scatter
+    records, and (NumPy fallbacks) every chunk size that splits the segments differently."""
+    from mc import kern, records
+    from mc.ref import estimator as est
+    from mc.ref import windows as refwin
+
+    backend, order = shard["backend"], shard["order"]
+    N = 9
+    out = {"evals": 0, "nontrivial": 0, "failures": [], "samples": [], "extra": {"single_segment_bins": 0}}
+    seen = set()
+    for (rx, ry), cross, L in itertools.product((("id1", "id2"), ("off", "off2"), ("pow", "id3")), (True, False), (2, 4, 6)):
+        x, y = records.get(rx, N, shard["seed"]), records.get(ry, N, shard["seed"])
+        k = kern.get_kernel(backend, cross, order)
+        win = np.ascontiguousarray(refwin.build("ramp", L))
+        pos = range(0, N - L + 1)
+        for K in (2, 3, 4):
+            for sq in itertools.product(pos, repeat=K):
+                starts = np.asarray(sq, dtype=np.int64)
+                ref = est.ref_stats(x, y if cross else None, starts, L, win, 0.7, order)
+                tol = est.tolerances(x, y if cross else None, starts, L, win, m2ref=ref[4])
+                for ch in ([None] if backend != "numpy" else [None, 1, 2, 3]):
+                    got = k(x, y if cross else None, starts, L, win, 0.7, **({} if ch is None else {"_chunk": ch}))
+                    out["evals"] += 1
+                    out["nontrivial"] += int(ref[4] > 1e3 * tol[4])
+                    if not (got[4] >= 0 and abs(got[4] - ref[4]) <= tol[4]):
+                        key = f"kernel/M2/{backend}/{'csd' if cross else 'auto'}/order={order}/chunk={ch}"
+                        if key not in seen:
+                            seen.add(key)
+                            out["failures"].append(fw.fail(key, f"{key}: starts={list(sq)} L={L} records {rx}/{ry}: M2={got[4]!r}, population variance of the per-segment products {ref[4]!r} (tol {tol[4]:.3e})", dict(shard)))
+    out["samples"].append({"kernel": backend, "order": order, "N": N, "K": [2, 3, 4]})
+    return out
 
 
 def _one(c):
